@@ -1027,4 +1027,107 @@ theorem sync_core {old : Int} {w : World NodeIds} (h : WorldInvAt old w) :
     · intro g p q _ hu'; rw [hu p] at hu'; simp at hu'
     · intro g p q _ hu'; rw [hu p] at hu'; simp at hu'
 
+/-! ## histories -/
+
+theorem step_inv {w : World NodeIds} (e : Event) (h : WorldInv w) (hen : enabled w e = true) :
+    WorldInv (stepWorld w e) := by
+  obtain ⟨old, h⟩ := h
+  cases e with
+  | op r o => exact ⟨old, op_step h r o hen⟩
+  | sync => exact ⟨_, sync_core h⟩
+
+theorem run_inv (hist : List Event) : ∀ (w : World NodeIds), WorldInv w → enabledAll hist w = true →
+    WorldInv (run hist w) := by
+  induction hist with
+  | nil => intro w h _; exact h
+  | cons e es ih =>
+    intro w h hen
+    simp only [enabledAll, Bool.and_eq_true] at hen
+    exact ih (stepWorld w e) (step_inv e h hen.1) hen.2
+
+theorem run_append (a b : List Event) (w : World NodeIds) : run (a ++ b) w = run b (run a w) := by
+  simp [run, List.foldl_append]
+
+/-! ## what the caller sees after `ref_node_synchronize_globals` -/
+
+theorem newId_inj {A : IdWorld} (h : IdInv A) {r q : Nat} {g g' : Int} (hg : g ∈ A.liveOf r)
+    (hg' : g' ∈ A.liveOf q) (he : A.newId r g = A.newId q g') : g = g' ∧ (g < A.old ∨ r = q) := by
+  have hx := h.live_not_unused r g hg
+  have hy := h.live_not_unused q g' hg'
+  have : shiftId A.old (A.off r) g = shiftId A.old (A.off q) g' := by
+    unfold IdWorld.newId at he
+    rcases lt_trichotomy (shiftId A.old (A.off r) g) (shiftId A.old (A.off q) g') with hlt | heq | hgt
+    · have := elim_strictMono _ h.unused_nodup _ _ hx hlt; omega
+    · exact heq
+    · have := elim_strictMono _ h.unused_nodup _ _ hy hgt; omega
+  exact shift_eq_cases A r q g g' (h.live_range r g hg).2 (h.live_range q g' hg').2 this
+
+/-- after the call, the slot `l` that held old id `g` on rank `r` holds `newId r g` -/
+theorem sync_slot {old : Int} {w : World NodeIds} (h : WorldInvAt old w) {r : Nat} {s s' : NodeIds}
+    (hr : w[r]? = some s) (hs' : (syncGlobals w)[r]? = some s') {g : Int} {l : Nat} (hm : (g, l) ∈ s.sorted) :
+    s'.global.getD l (-1) = (absWorld old w).newId r g := by
+  have hS := worldInvAt_syncInv h
+  have hN := (h.1 s (getElem?_mem' hr)).2.2
+  rw [syncGlobals_eq old w hS, final_getElem?, hr] at hs'
+  simp only [Option.map_some, Option.some.injEq] at hs'
+  subst hs'
+  show (writeBack _ _).getD l (-1) = _
+  apply writeBack_getD
+  · rw [List.map_map]; exact slots_nodup hN
+  · exact List.mem_map.2 ⟨(g, l), hm, rfl⟩
+  · obtain ⟨h1, h2⟩ := hN.srt.sound (g, l) hm
+    simpa using lt_length_of_getD_nonneg (g := s.global) (v := l) (by rw [h1]; exact h2)
+
+/-- the post-condition of `ref_node_synchronize_globals` on a world satisfying the invariant (the C06 sentence) -/
+theorem sync_post {old : Int} {w : World NodeIds} (h : WorldInvAt old w) :
+    0 ≤ (absWorld old w).N ∧ (syncGlobals w).length = w.length ∧
+    (∀ s ∈ syncGlobals w, s.oldN = (absWorld old w).N ∧ s.newN = (absWorld old w).N ∧ s.unusedStk = [] ∧
+      NodeInv s ∧ ∀ g ∈ s.keys, 0 ≤ g ∧ g < (absWorld old w).N) ∧
+    (∀ g, 0 ≤ g → g < (absWorld old w).N → ∃ s ∈ syncGlobals w, g ∈ s.keys) ∧
+    (∀ (r q : Nat) (s t s' t' : NodeIds) (g g' : Int) (l l' : Nat), w[r]? = some s → w[q]? = some t →
+      (syncGlobals w)[r]? = some s' → (syncGlobals w)[q]? = some t' → (g, l) ∈ s.sorted → (g', l') ∈ t.sorted →
+      (s'.global.getD l (-1) = t'.global.getD l' (-1) ↔ g = g' ∧ (g < old ∨ r = q))) := by
+  have hS := worldInvAt_syncInv h
+  have hpost := sync_core h
+  have hB := Refine.Props.C06.newId_bijection (absWorld old w) hS.inv
+  have heq := syncGlobals_eq old w hS
+  refine ⟨N_nonneg hS.inv, by rw [heq]; simp, ?_, ?_, ?_⟩
+  · intro s' hs'
+    obtain ⟨h1, h2, h3⟩ := hpost.1 s' hs'
+    have hs'' := hs'
+    rw [heq] at hs''
+    obtain ⟨i, hi, he⟩ := List.mem_iff_getElem.1 hs''
+    have hi' : i < w.length := by simpa using hi
+    simp only [List.getElem_mapIdx] at he
+    subst he
+    refine ⟨rfl, rfl, rfl, h3, ?_⟩
+    intro g hg
+    rw [finalRank_keys] at hg
+    obtain ⟨g0, hg0, rfl⟩ := List.mem_map.1 hg
+    exact hB.2.2.2.2.1 i g0 (by rw [liveOf_abs_some (List.getElem?_eq_getElem hi')]; exact hg0)
+  · intro g h0 hlt
+    obtain ⟨r, g0, hg0, he⟩ := hB.2.2.2.2.2 g h0 hlt
+    cases hw : w[r]? with
+    | none => rw [liveOf_abs_none hw] at hg0; simp at hg0
+    | some s =>
+      rw [liveOf_abs_some hw] at hg0
+      refine ⟨finalRank (absWorld old w) r s, ?_, ?_⟩
+      · rw [heq]
+        apply List.mem_of_getElem? (i := r)
+        rw [final_getElem?, hw]; rfl
+      · rw [finalRank_keys]; exact List.mem_map.2 ⟨g0, hg0, he⟩
+  · intro r q s t s' t' g g' l l' hr hq hs' ht' hm hm'
+    rw [sync_slot h hr hs' hm, sync_slot h hq ht' hm']
+    have hg : g ∈ (absWorld old w).liveOf r := by
+      rw [liveOf_abs_some hr]; exact List.mem_map.2 ⟨_, hm, rfl⟩
+    have hg' : g' ∈ (absWorld old w).liveOf q := by
+      rw [liveOf_abs_some hq]; exact List.mem_map.2 ⟨_, hm', rfl⟩
+    constructor
+    · intro he
+      exact newId_inj hS.inv hg hg' he
+    · rintro ⟨rfl, hc⟩
+      rcases hc with hc | rfl
+      · exact hB.2.1 r q g hc
+      · rfl
+
 end Refine.Lemmas.DistIds
